@@ -229,9 +229,43 @@ def leftover (d : Decomp) (r : Reader) : Bool :=
   if d.isNull then (if r.outer.isSlice then r.blk.rest ≠ [] else r.blkLimit > 0)
   else r.blk.rest ≠ []
 
+theorem srcAfterBlockGo_fst_le (lastChunk afterLen : Nat) :
+    ∀ (fuel rem : Nat) (sched : List Nat), (srcAfterBlockGo lastChunk afterLen fuel rem sched).1 ≤ afterLen := by
+  intro fuel
+  induction fuel with
+  | zero => intro rem sched; simp [srcAfterBlockGo]
+  | succ n ih =>
+    intro rem sched
+    unfold srcAfterBlockGo
+    split
+    · simp
+    · cases sched with
+      | nil =>
+        simp only
+        split
+        · simp only; omega
+        · exact ih _ _
+      | cons c rest =>
+        simp only
+        split
+        · simp only; omega
+        · exact ih _ _
+
+/-- what the source still has buffered after a block is part of what follows the block -/
+theorem srcAfterBlock_fst_le (o : RState) (size afterLen : Nat) :
+    (srcAfterBlock o size afterLen).1 ≤ afterLen := by
+  unfold srcAfterBlock
+  split
+  · exact Nat.min_le_right _ _
+  · exact srcAfterBlockGo_fst_le _ _ _ _ _
+
 /-- the source back-end `leaveBlock` reads the sync marker from -/
 def leaveOuter (d : Decomp) (r : Reader) : RState :=
-  if d.isNull ∧ ¬ r.outer.isSlice then { r.blk with rest := r.after, avail := 0, limit := none }
+  if d.isNull ∧ ¬ r.outer.isSlice then
+    { r.blk with rest := r.after,
+                 avail := (srcAfterBlock r.outer (r.outer.rest.length - r.after.length) r.after.length).1,
+                 sched := (srcAfterBlock r.outer (r.outer.rest.length - r.after.length) r.after.length).2,
+                 limit := none }
   else { r.outer with rest := r.after, avail := 0 }
 
 theorem leaveBlock_eq (d : Decomp) (r : Reader) :
@@ -245,6 +279,13 @@ theorem leaveBlock_eq (d : Decomp) (r : Reader) :
 
 theorem leaveOuter_rest (d : Decomp) (r : Reader) : (leaveOuter d r).rest = r.after := by
   unfold leaveOuter; split <;> rfl
+
+theorem leaveOuter_wf (d : Decomp) (r : Reader) : (leaveOuter d r).WF := by
+  intro _
+  unfold leaveOuter
+  split
+  · exact srcAfterBlock_fst_le _ _ _
+  · simp
 
 theorem leaveBlock_spec {d : Decomp} {r r' : Reader} {res : Except RdErr Unit}
     (h : leaveBlock d r = (res, r')) :
